@@ -17,7 +17,52 @@ struct RaceOut
   std::string wire;
   uint64_t calls = 0, callsAfterTrigger = 0;
   bool eof = false;
+  std::string ended = "?";     // how the capture ended: close-seen | eof | watchdog
+  std::string probe = "not-sent"; // liveness probe after a watchdog end: pong | eof | none | not-sent
   std::string harness;
+};
+
+struct RaceOpts
+{
+  int quietMs = 60;        // after the close frame was seen: silence that ends the capture
+  int closeWaitMs = 8000;  // generous: how long to wait for the endpoint's close frame once all senders returned
+  int probeWaitMs = 8000;  // generous: how long to wait for the reply to the liveness probe
+};
+
+// Harness-side frame walker over the captured bytes (header arithmetic only; the verdict is still
+// computed by the Python reference codec). Used to decide WHEN the capture may end: a close frame
+// of the endpoint is on the wire, or the pong for the liveness probe arrived.
+struct WireScan
+{
+  size_t pos = 0;
+  bool close = false, pong = false, broken = false;
+  void scan(const std::string &w, const std::string &probePayload)
+  {
+    while (!broken)
+    {
+      size_t n = w.size() - pos;
+      if (n < 2) return;
+      const unsigned char *d = (const unsigned char *)w.data() + pos;
+      unsigned op = d[0] & 15;
+      bool masked = d[1] & 0x80;
+      uint64_t len = d[1] & 0x7F;
+      size_t h = 2;
+      if (len == 126) { if (n < 4) return; len = (uint64_t(d[2]) << 8) | d[3]; h = 4; }
+      else if (len == 127) { if (n < 10) return; len = 0; for (int k = 0; k < 8; k++) len = (len << 8) | d[2 + k]; h = 10; }
+      if (len > (64u << 20)) { broken = true; return; }
+      const unsigned char *key = nullptr;
+      if (masked) { if (n < h + 4) return; key = d + h; h += 4; }
+      if (n < h + len) return;
+      if (op == 8) close = true;
+      if (op == 10 && len == probePayload.size() && !probePayload.empty())
+      {
+        bool same = true;
+        for (size_t i = 0; i < len && same; i++) same = (unsigned char)(d[h + i] ^ (key ? key[i & 3] : 0)) == (unsigned char)probePayload[i];
+        if (same) pong = true;
+      }
+      pos += h + (size_t)len;
+    }
+  }
 };
 
 static inline void spinUs(vf::Rng &r, unsigned maxUs)
@@ -28,19 +73,51 @@ static inline void spinUs(vf::Rng &r, unsigned maxUs)
   else vf::sleepMs(us / 1000.0);
 }
 
-// capture thread: reads until EOF or until `stop` is set and the socket has been quiet for quietMs
-static inline void captureLoop(int fd, std::string &into, std::atomic<bool> &stop, bool &eof, int quietMs)
+// Capture thread. Reads everything the endpoint writes. Once `stop` is set (every sender returned,
+// the close was initiated) it waits - generously, this is a watchdog, not a measurement - until the
+// endpoint's close frame is on the wire (then a short silence ends the capture) or the connection
+// ends (EOF). If neither happens it sends a liveness probe (a ping with a unique payload; the peer's
+// write queue is FIFO, so its pong proves that everything queued earlier has been written) and
+// reports how the capture ended; the judge tells "connection finished without a close frame" /
+// "endpoint alive, answered the probe, never sent a close frame" (violations of the close handshake)
+// from "nothing came back at all" (inconclusive: starved or stuck).
+static inline void captureLoop(int fd, RaceOut &out, std::atomic<bool> &stop, bool peerMasks, const RaceOpts &ro)
 {
   vf::shim::tlsSockExempt = true;
-  uint64_t lastData = vf::nowNs();
-  uint64_t hard = vf::nowNs() + 30000000000ull;
+  std::string &into = out.wire;
+  static const std::string probePayload = "vf-race-probe";
+  WireScan ws;
+  uint64_t lastData = vf::nowNs(), stopSeen = 0, probeSent = 0;
+  uint64_t hard = vf::nowNs() + 120000000000ull;
   for (;;)
   {
     size_t before = into.size();
-    if (!recvSome(fd, into, 10)) { eof = true; return; }
-    if (into.size() != before) lastData = vf::nowNs();
-    if (stop.load() && vf::nowNs() - lastData > uint64_t(quietMs) * 1000000ull) return;
-    if (vf::nowNs() > hard) return;
+    if (!recvSome(fd, into, 10)) { ws.scan(into, probePayload); out.eof = true; out.ended = "eof"; if (probeSent) out.probe = "eof"; return; }
+    uint64_t now = vf::nowNs();
+    if (into.size() != before) { lastData = now; ws.scan(into, probePayload); }
+    if (!stop.load()) { if (now > hard) { out.ended = "watchdog"; return; } continue; }
+    if (!stopSeen) stopSeen = now;
+    if (ws.close)
+    {
+      if (now - lastData > uint64_t(ro.quietMs) * 1000000ull) { out.ended = "close-seen"; return; }
+      continue;
+    }
+    if (!probeSent)
+    {
+      if (now - stopSeen > uint64_t(ro.closeWaitMs) * 1000000ull)
+      {
+        std::string ping;
+        ping.push_back((char)0x89);
+        if (peerMasks) { ping.push_back((char)(0x80 | probePayload.size())); ping.append("\x11\x22\x33\x44", 4); static const unsigned char k[4] = {0x11, 0x22, 0x33, 0x44}; for (size_t i = 0; i < probePayload.size(); i++) ping.push_back((char)(probePayload[i] ^ k[i & 3])); }
+        else { ping.push_back((char)probePayload.size()); ping += probePayload; }
+        sendAll(fd, ping.data(), ping.size(), 2000);
+        probeSent = now;
+        out.probe = "none";
+      }
+      continue;
+    }
+    if (ws.pong) { out.probe = "pong"; out.ended = "watchdog"; return; }
+    if (now - probeSent > uint64_t(ro.probeWaitMs) * 1000000ull || now > hard) { out.ended = "watchdog"; return; }
   }
 }
 
@@ -89,7 +166,7 @@ static inline std::string racePayload(int t, unsigned k, vf::Rng &r)
   return s;
 }
 
-static inline RaceOut raceServer(ServerRig &rig, vf::Rng &rng, bool peerCloses)
+static inline RaceOut raceServer(ServerRig &rig, vf::Rng &rng, bool peerCloses, const RaceOpts &ro)
 {
   RaceOut out;
   SessionId sid = 0;
@@ -98,7 +175,7 @@ static inline RaceOut raceServer(ServerRig &rig, vf::Rng &rng, bool peerCloses)
   if (fd < 0) { out.harness = "HARNESS: " + why; return out; }
   out.wire.reserve(1 << 20);
   std::atomic<bool> stop{false};
-  std::thread cap([&] { captureLoop(fd, out.wire, stop, out.eof, 60); });
+  std::thread cap([&] { captureLoop(fd, out, stop, /*peerMasks=*/true, ro); });
   Srv *srv = rig.srv.get();
   int nthreads = (int)rng.range(2, 4);
   unsigned trigAfter = (unsigned)rng.range(0, 150);
@@ -124,7 +201,7 @@ static inline RaceOut raceServer(ServerRig &rig, vf::Rng &rng, bool peerCloses)
   return out;
 }
 
-static inline RaceOut raceClient(ClientRig &rig, vf::Rng &rng, int kind)
+static inline RaceOut raceClient(ClientRig &rig, vf::Rng &rng, int kind, const RaceOpts &ro)
 {
   RaceOut out;
   auto cl = rig.make();
@@ -138,7 +215,7 @@ static inline RaceOut raceClient(ClientRig &rig, vf::Rng &rng, int kind)
   }
   out.wire.reserve(1 << 20);
   std::atomic<bool> stop{false};
-  std::thread cap([&] { captureLoop(fd, out.wire, stop, out.eof, 60); });
+  std::thread cap([&] { captureLoop(fd, out, stop, /*peerMasks=*/false, ro); });
   int nthreads = (int)rng.range(2, 4);
   unsigned trigAfter = (unsigned)rng.range(0, 150);
   WebSocketClient *c = cl.get();
@@ -171,6 +248,10 @@ static inline int runRace(const vf::Args &args)
   vf::shim::tlsSockExempt = true;
   uint64_t seed = args.u("seed", 1);
   uint64_t from = args.u("from", 0), count = args.u("count", 10);
+  RaceOpts ro;
+  ro.quietMs = (int)args.u("quiet-ms", 60);
+  ro.closeWaitMs = (int)args.u("close-wait-ms", 8000);
+  ro.probeWaitMs = (int)args.u("probe-wait-ms", 8000);
   ServerRig srig;
   ClientRig crig;
   if (!crig.open()) { vf::out().inconclusive("closerace: could not open a loopback listener"); vf::out().flush(); return 2; }
@@ -180,16 +261,17 @@ static inline int runRace(const vf::Args &args)
     vf::out().line("{\"t\":\"begin\",\"i\":" + std::to_string(i) + "}");
     int kind = (int)(i % 5);
     vf::Rng rng(seed, 5000 + i);
-    RaceOut ro;
+    RaceOut res;
     if (kind < 2)
     {
       if (!srig.srv && !srig.start(1 << 20)) { vf::out().inconclusive("closerace: could not start a WebSocketServer"); vf::out().flush(); return 2; }
-      ro = raceServer(srig, rng, kind == 0);
+      res = raceServer(srig, rng, kind == 0, ro);
     }
-    else ro = raceClient(crig, rng, kind);
-    vf::out().line("{\"t\":\"race\",\"i\":" + std::to_string(i) + ",\"kind\":\"" + names[kind] + "\",\"calls\":" + std::to_string(ro.calls) +
-                   ",\"calls_after_trigger\":" + std::to_string(ro.callsAfterTrigger) + ",\"eof\":" + (ro.eof ? "true" : "false") +
-                   ",\"harness\":" + (ro.harness.empty() ? "null" : vf::jstr(ro.harness)) + ",\"wire\":\"" + vf::hex(ro.wire) + "\"}");
+    else res = raceClient(crig, rng, kind, ro);
+    vf::out().line("{\"t\":\"race\",\"i\":" + std::to_string(i) + ",\"kind\":\"" + names[kind] + "\",\"calls\":" + std::to_string(res.calls) +
+                   ",\"calls_after_trigger\":" + std::to_string(res.callsAfterTrigger) + ",\"eof\":" + (res.eof ? "true" : "false") +
+                   ",\"ended\":\"" + res.ended + "\",\"probe\":\"" + res.probe + "\"" +
+                   ",\"harness\":" + (res.harness.empty() ? "null" : vf::jstr(res.harness)) + ",\"wire\":\"" + vf::hex(res.wire) + "\"}");
   }
   srig.stop();
   ::close(crig.lfd);
